@@ -290,6 +290,8 @@ pub fn clauses() -> Vec<Clause> {
         if !matches!(vd.name, "Vst") {
             v.push(Clause::generated("C02", format!("C02/{}/tiny_unit/f64", vd.name), "tiny units: N in 1..24 (thorough ..100), grammar stream on the 1/8 grid (|k| <= 2048, zeros partly written as -0.0) with every value multiplied by 2^-150 or, for the views that neither square nor take roots, 2^-1065 (subnormal inputs; 2^-400 otherwise); f64 run against the batch definition, tolerances relative to the largest input (plus two subnormal ulps). The definitions are homogeneous in the unit: an absolute threshold or a test such as is_normal() in a view shows here.", 300, 8_000, strategy_tiny(vd), check_f64(vd)).with_shard(100));
         }
+        let dv = DefView { name: vd.name, mk: vd.mk, reference: vd.reference, min_n: 1, irr: !(matches!(vd.kind, Kind::Value | Kind::Ratio) || vd.name == "HLNormalizer"), positive: false };
+        v.push(Clause::generated("C02", format!("C02/{}/chained/Q", vd.name), CHAINED_RULE, 300, 8_000, def_strategy_chained(dv.clone()), def_check_chained_q(format!("C02/{}/chained/Q", vd.name), dv)).with_shard(100));
         let lrule = "long histories: N in 1..8, 300..1200 values (thorough ..5000) built by tiling a grammar stream (every other tile reversed, tiles shifted); same oracle at every step. Reaches defects that need hundreds of updates (periodic re-synchronisation, counters, wrapped buffers).";
         v.push(Clause::generated("C02", format!("C02/{}/long/Q", vd.name), lrule, 40, 1000, strategy_long(vd.mk), check_q(vd)).with_shard(8));
         v.push(Clause::generated("C02", format!("C02/{}/long/f64", vd.name), lrule, 60, 2000, strategy_long(vd.mk), check_f64(vd)).with_shard(12));
